@@ -1,8 +1,9 @@
 """C15 (see DESIGN.md section 6)."""
 from vlib.framework import PUnit, LUnit, BUnit
 from bounded import b_build as B
+from contracts import virtual_sites as VS
 
-P_UNITS = []
+P_UNITS = [PUnit("virtual-site-constructions", VS.CONTRACTS, VS.REG), LUnit("virtual-site-dispatch-table", VS.lemma_dispatch_table)]
 
 
 def build(tier, seed):
